@@ -971,3 +971,157 @@ def rule_recursion(db, chk, cfg, rule="RECURSION", lib_only=True):
                               "some path: a cycle through the data it descends into is followed forever (stack exhaustion)"
                               % (f.qual, marks[0][1], marks[0][2], canon(c)[:70]), where(c), cfg=cfg)
     return n
+
+
+# ---------------------------------------------------------------------------
+# ALLOC.owned: what a function allocates into a local pointer has an owner when the function is left (C10: no leaks)
+# ---------------------------------------------------------------------------
+
+class _Owned(Client):
+    """state: frozenset of local variable ids that may hold an allocation nobody else knows about."""
+
+    def __init__(self, db, f):
+        self.db, self.f = db, f
+        self.leaks = {}            # var id -> (name, exit node or None)
+        self.names = {}
+        self.arrays = set()
+        self.sites = 0
+        self.par = {}
+        for x in walk(f.body):
+            for c in kids(x):
+                if isinstance(c, dict):
+                    self.par[id(c)] = x
+        self.locals = {x.get("id") for x in walk(f.body) if x.get("kind") == "VarDecl"}
+
+    def join(self, a, b):
+        return a | b
+
+    def _new_of(self, e):
+        e = strip(e) if e else {}
+        return e if e.get("kind") == "CXXNewExpr" else None
+
+    def _escapes(self, ref, is_array):
+        """does this use of the variable hand the allocation to somebody (or free it)?"""
+        node = ref
+        deref = False
+        while True:
+            p = self.par.get(id(node))
+            if p is None:
+                return False
+            k = p.get("kind")
+            if k in ("ImplicitCastExpr", "ParenExpr", "ExprWithCleanups", "MaterializeTemporaryExpr", "CXXBindTemporaryExpr"):
+                node = p
+                continue
+            if k == "UnaryOperator" and p.get("opcode") == "*":
+                deref = True
+                node = p
+                continue
+            if k in ("MemberExpr", "ArraySubscriptExpr"):
+                return False
+            if k == "UnaryOperator" and p.get("opcode") in ("!", "++", "--"):
+                return False
+            if k == "BinaryOperator" and p.get("opcode") in ("==", "!=", "<", ">", "<=", ">=", "&&", "||", "-", "+"):
+                return False
+            if k in ("IfStmt", "WhileStmt", "ForStmt", "DoStmt", "ConditionalOperator") and kids(p) and node is not kids(p)[-1]:
+                return False if k != "ConditionalOperator" or node is kids(p)[0] else (not deref or not is_array)
+            if k == "CXXDeleteExpr":
+                return True
+            if k in ("CallExpr", "CXXMemberCallExpr", "CXXConstructExpr", "CXXOperatorCallExpr", "CXXTemporaryObjectExpr", "InitListExpr"):
+                if node is kids(p)[0] and k != "CXXConstructExpr" and k != "InitListExpr":
+                    return False                       # the callee expression itself
+                return not (deref and is_array)
+            if k == "ReturnStmt":
+                return not deref
+            if k == "BinaryOperator" and p.get("opcode") == "=":
+                if node is kids(p)[0]:
+                    return False                       # being assigned to
+                l = strip(kids(p)[0])
+                if l.get("kind") == "DeclRefExpr" and l.get("referencedDecl", {}).get("id") in self.locals and "*" in (qt(l) or "") and "&" not in (qt(l) or ""):
+                    return False                       # copied into another local pointer (a cursor)
+                return not deref
+            if k == "VarDecl":
+                t = qt(p) or ""
+                return not deref and not ("*" in t and "&" not in t)       # initialising another local pointer is not a hand-over
+            if k in ("CompoundStmt", "DeclStmt"):
+                return False
+            return not deref
+
+    def stmt(self, node, st):
+        for x in walk(node):
+            k = x.get("kind")
+            if k == "DeclRefExpr" and x.get("referencedDecl", {}).get("id") in st:
+                vid = x["referencedDecl"]["id"]
+                if self._escapes(x, vid in self.arrays):
+                    st = st - {vid}
+            elif k == "VarDecl" and x.get("id") in self.locals:
+                init = [c for c in kids(x) if isinstance(c, dict) and c.get("kind")]
+                nw = self._new_of(init[-1]) if init else None
+                if nw is not None:
+                    self.sites += 1
+                    self.names[x["id"]] = x.get("name")
+                    if nw.get("isArray"):
+                        self.arrays.add(x["id"])
+                    st = st | {x["id"]}
+            elif k == "BinaryOperator" and x.get("opcode") == "=":
+                l = strip(kids(x)[0])
+                nw = self._new_of(kids(x)[1])
+                if nw is not None and l.get("kind") == "DeclRefExpr" and l.get("referencedDecl", {}).get("id") in self.locals:
+                    vid = l["referencedDecl"]["id"]
+                    self.sites += 1
+                    self.names[vid] = l["referencedDecl"].get("name")
+                    if nw.get("isArray"):
+                        self.arrays.add(vid)
+                    st = st | {vid}
+        return st
+
+    def cond_atom(self, expr, st):
+        st = self.stmt(expr, st)
+        e = strip(expr)
+        t = f = st
+        if e.get("kind") == "DeclRefExpr" and e.get("referencedDecl", {}).get("id") in st:
+            f = st - {e["referencedDecl"]["id"]}
+        elif e.get("kind") == "BinaryOperator" and e.get("opcode") in ("==", "!="):
+            a, b = strip(kids(e)[0]), strip(kids(e)[1])
+            for u, v in ((a, b), (b, a)):
+                if u.get("kind") == "DeclRefExpr" and u.get("referencedDecl", {}).get("id") in st and v.get("kind") in ("CXXNullPtrLiteralExpr", "GNUNullExpr", "IntegerLiteral"):
+                    if e["opcode"] == "==":
+                        t = st - {u["referencedDecl"]["id"]}
+                    else:
+                        f = st - {u["referencedDecl"]["id"]}
+        return t, f
+
+    def on_return(self, node, st):
+        for vid in st or ():
+            self.leaks.setdefault(vid, node)
+
+    def on_exit(self, st):
+        for vid in st or ():
+            self.leaks.setdefault(vid, None)
+
+
+def rule_alloc_owned(db, chk, cfg, rule="ALLOC.owned"):
+    """Every `new` whose result is kept in a local pointer: on every path from the allocation to an exit of the function the
+    pointer is handed on - returned, stored in a member / container / another object, passed to a call (for an array: the pointer
+    itself, not an element), or deleted - or is known to be null on that path.  An exit with the only pointer to the block still in
+    a local is a leak (forward may-analysis over the structured CFG, null tests refine)."""
+    n = 0
+    for f in db.funcs:
+        fl = f.file or ""
+        if f.body is None or f.is_pattern or not ("Clipper2Lib" in fl or "clipper2" in fl):
+            continue
+        if not any(x.get("kind") == "CXXNewExpr" for x in walk(f.body)):
+            continue
+        cl = _Owned(db, f)
+        Walker(cl).function(f.body, frozenset())
+        if not cl.sites:
+            continue
+        n += cl.sites
+        for vid, nm in sorted(cl.names.items(), key=lambda kv: str(kv[1])):
+            bad = vid in cl.leaks
+            chk.instance(rule, {"function": f.qual, "sig": f.sig[:50], "local": nm, "array": vid in cl.arrays, "cfg": cfg}, ok=not bad)
+            if bad:
+                at = cl.leaks[vid]
+                chk.violation(rule, f.qual, "%s|%s" % (f.sig[:30], nm), "%s can leave%s with the block allocated into the local `%s` owned by nobody: it was neither stored, "
+                              "handed to a call, returned nor deleted on that path - a leak" % (f.qual, (" at %s" % where(at)) if at is not None else " (at its end)", nm),
+                              where(at) if at is not None else f.where, cfg=cfg)
+    return n
